@@ -442,8 +442,8 @@ func (p *parser) parseDecl(cs *ContractSet) error {
 		if err != nil {
 			return err
 		}
-		if old, dup := cs.Preds[name]; dup {
-			return fmt.Errorf("%s: predicate %s is already declared (package %s): predicate names are global", p.file, name, old.Pkg)
+		if old, dup := cs.Preds[name]; dup && (old.Body.cstr() != body.cstr() || len(old.Params) != len(params)) {
+			return fmt.Errorf("%s: predicate %s is already declared differently (package %s): predicate names are global", p.file, name, old.Pkg)
 		}
 		cs.Preds[name] = &PredDecl{Name: name, Pkg: p.pkg, Params: params, Body: body}
 		return nil
@@ -469,8 +469,8 @@ func (p *parser) parseDecl(cs *ContractSet) error {
 			}
 			sd.Axioms = append(sd.Axioms, cl)
 		}
-		if _, dup := cs.Specs[name]; dup {
-			return fmt.Errorf("%s: spec function %s is already declared: spec names are global", p.file, name)
+		if old, dup := cs.Specs[name]; dup && len(old.Params) != len(sd.Params) {
+			return fmt.Errorf("%s: spec function %s is already declared differently: spec names are global", p.file, name)
 		}
 		cs.Specs[name] = sd
 		return nil
